@@ -104,7 +104,10 @@ def run_job(job):
     from .evm import Chain
     res = {"cfg": cfg.name, "error": None, "obs": []}
     try:
-        c = compile_src(src, cfg, formats=("bytecode", "method_identifiers"))
+        c = compile_src(src, cfg, formats=("bytecode", "bytecode_runtime", "method_identifiers"))
+        if (len(c["bytecode_runtime"]) - 2) // 2 > 24576:
+            res["skipped"] = "runtime code larger than the EIP-170 limit under this configuration"
+            return res
         mids = {k.split("(")[0]: int(v, 16).to_bytes(4, "big") for k, v in c["method_identifiers"].items()}
         init = bytes.fromhex(c["bytecode"][2:])
         ch = Chain(cfg.evm)
